@@ -90,6 +90,9 @@ package gorums
 //@ lemma C19.Port.incomparability-transitive [C19.a] (a *RawNode, b *RawNode, c *RawNode): a != nil && b != nil && c != nil && \
 //@     !call(Port, a, b) && !call(Port, b, a) && !call(Port, b, c) && !call(Port, c, b) ==> !call(Port, a, c) && !call(Port, c, a)
 
+// The Port key compares the numeric port of the nodes' addresses - not some other attribute that happens
+// to be a strict weak order (a cached field one constructor forgets to fill).
+//@ lemma C19.Port.orders-by-port [C19.a] (a *RawNode, b *RawNode): a != nil && b != nil ==> (call(Port, a, b) <==> atoiOf(portOfAddr(a.addr)) < atoiOf(portOfAddr(b.addr)))
 //@ lemma C19.LastNodeError.irreflexive [C19.a] (a *RawNode): a != nil && a.channel != nil ==> !call(LastNodeError, a, a)
 //@ lemma C19.LastNodeError.asymmetric [C19.a] (a *RawNode, b *RawNode): a != nil && b != nil && a.channel != nil && b.channel != nil && \
 //@     call(LastNodeError, a, b) ==> !call(LastNodeError, b, a)
